@@ -242,17 +242,21 @@ pub struct Call {
     /// EID stored through set_eid on the half the encoder reads from, and on the other half
     pub eid_this: u8,
     pub eid_other: u8,
+    /// 0 = fresh context; otherwise the seed of a short prior history (processed packets with
+    /// hostile header bits, instance IDs, assignments, decode/get_length calls) run on the encoding
+    /// context before the call. After the history the EID cells are set as eid_this/eid_other say.
+    pub hist: u64,
 }
 
 impl Call {
     pub fn new(form: Form, own: u8, dest: u8) -> Self {
-        Call { form, own, dest, p: [0; 4], blob: Vec::new(), hdr: None, data32: 0, num16: 0, eid_this: 0, eid_other: 0 }
+        Call { form, own, dest, p: [0; 4], blob: Vec::new(), hdr: None, data32: 0, num16: 0, eid_this: 0, eid_other: 0, hist: 0 }
     }
 
     /// Compact, replayable encoding.
     pub fn encode(&self) -> String {
         format!(
-            "f={};own={:02x};dst={:02x};p={};blob={};hdr={};d32={:x};n16={:x};et={:02x};eo={:02x}",
+            "f={};own={:02x};dst={:02x};p={};blob={};hdr={};d32={:x};n16={:x};et={:02x};eo={:02x};h={:x}",
             self.form as u8,
             self.own,
             self.dest,
@@ -265,7 +269,8 @@ impl Call {
             self.data32,
             self.num16,
             self.eid_this,
-            self.eid_other
+            self.eid_other,
+            self.hist
         )
     }
 
@@ -290,6 +295,7 @@ impl Call {
                 "n16" => c.num16 = u16::from_str_radix(v, 16).ok()?,
                 "et" => c.eid_this = u8::from_str_radix(v, 16).ok()?,
                 "eo" => c.eid_other = u8::from_str_radix(v, 16).ok()?,
+                "h" => c.hist = u64::from_str_radix(v, 16).ok()?,
                 _ => return None,
             }
         }
@@ -316,6 +322,9 @@ impl Call {
         }
         c.eid_this = rng.edgy_byte();
         c.eid_other = rng.edgy_byte();
+        if rng.chance(1, 3) {
+            c.hist = rng.next() | 1;
+        }
         c.data32 = rng.next() as u32;
         c.num16 = rng.next() as u16;
         match form {
@@ -422,8 +431,60 @@ fn route_type_variant(i: u8) -> RoutingInformationUpdateEntryType {
 pub fn invoke(c: &Call, buf: &mut [u8]) -> Result<Result<usize, ()>, PanicSig> {
     let types: [u8; 1] = [0x7E];
     let vendors = [VendorIDFormat { format: 0, data: 0x1414, numeric_value: 4 }];
-    let ctx = MCTPSMBusContext::new(c.own, &types, &vendors);
+    let mut ctx = MCTPSMBusContext::new(c.own, &types, &vendors);
+    if c.hist != 0 {
+        run_history(&mut ctx, c.own, c.hist);
+    }
     invoke_on(&ctx, c, buf, true)
+}
+
+/// A short hostile history on the encoding context: requests with arbitrary transport flags,
+/// instance IDs, datagram / reserved bits, assignments, responses, vendor messages, corrupted
+/// packets, decode-only and get_length calls, a UUID update. Panics are trapped and ignored here
+/// (C10 judges them); what matters is the state left behind.
+pub fn run_history(ctx: &mut MCTPSMBusContext, own: u8, seed: u64) {
+    use crate::refmodel::forge::*;
+    let mut rng = Rng::new(seed);
+    let mut rb = [0u8; 96];
+    let n = 1 + rng.below(5);
+    for _ in 0..n {
+        let src = rng.byte() & 0x7F;
+        let iid = rng.byte() & 0x1F;
+        let mut p = match rng.below(10) {
+            0 | 1 => ctrl_request(own & 0x7F, src, iid, rng.chance(1, 3), 0x01, &[rng.below(2) as u8, rng.range(1, 0xFE) as u8]),
+            2 => ctrl_request(own & 0x7F, src, iid, rng.chance(1, 3), 0x02, &[]),
+            3 => ctrl_request(own & 0x7F, src, iid, rng.chance(1, 3), 0x03, &[]),
+            4 => ctrl_request(own & 0x7F, src, iid, rng.chance(1, 3), 0x06, &[rng.byte() & 1]),
+            5 => ctrl_request(own & 0x7F, src, iid, false, rng.range(7, 0x20) as u8, &[rng.byte()]),
+            6 => ctrl_response(own & 0x7F, src, iid, 0x01, 0, &[0, rng.byte(), 0]),
+            7 => crate::corpus::forged_vendor(&mut rng),
+            _ => crate::corpus::gen_any(&mut rng),
+        };
+        if p.len() > 12 && rng.chance(1, 2) {
+            // hostile but legal header bits: the decoder does not look at them
+            p[7] = rng.byte();
+            if rng.chance(1, 2) {
+                p[9] |= 0x20;
+            }
+            fix_pec(&mut p);
+        }
+        match rng.below(6) {
+            0 => {
+                let _ = trap(|| ctx.decode_packet(&p).is_ok());
+            }
+            1 => {
+                let _ = trap(|| ctx.get_length(&p).is_ok());
+                let _ = trap(|| ctx.process_packet(&p, &mut rb).is_ok());
+            }
+            _ => {
+                let _ = trap(|| ctx.process_packet(&p, &mut rb).is_ok());
+            }
+        }
+    }
+    if rng.chance(1, 3) {
+        let u = rng.bytes(16);
+        let _ = trap(std::panic::AssertUnwindSafe(|| ctx.set_uuid(&u)));
+    }
 }
 
 /// Same, on an existing context (`set_eids`: store eid_this/eid_other first).
